@@ -50,6 +50,12 @@ CHECKS = {
             "generator; the run observes that no own line is refused by the ACL, that the parsed nesting equals the yielded block paths, that every list name a policy line refers "
             "to is defined by the list generators in the same namespace, and - with recording proxies segmenting the stream per condition/action - that no error follows lines of the same construct.",
             "Trusted: the syntax readers of the three vendors in vf/props/c14.py. Misuse of a list of the wrong type is outside the domain.", "4/C14"),
+    "C15": ("table-driven reference (handlers are pure tables) + mirror monitor over both ends of every session + registration-order permutation + merge-law monitor",
+            "On random fake topologies and registries, MeshExecutor.execute_for runs for every device on fresh copies; the run observes that the address a device peers with is the one "
+            "the other end's own run configured on its interface, that remote AS equals the other end's local AS, that families and session options agree, that the interface is the "
+            "one the rule table selects (port / LAG / sub-interface incl. unit 0 / SVI), that every permutation of handler registration gives the same outcome or a conflict in all, "
+            "and that basemodel.merge obeys each field's declared merger on random instances.",
+            "Trusted: the handler tables and template matcher in vf/props/c15.py; fake Device/Storage from tests/annet/test_mesh/fakes.py.", "4/C15"),
     "C16": ("relational (differential) monitor between two real front ends on the same inputs, including the CLI file workers on files in a scratch directory",
             "Every fixture pair, per-vendor cross products and random recombinations of fixture trees, for stub hardware and the hardware families the templates branch on, are run "
             "through _read_old_new_diff_patch / file_patch_worker / file_diff_worker and through _diff_and_patch; ordered command paths and diff entries must be equal.",
